@@ -4,7 +4,7 @@ namespace GuppyVerif.TraceOwn
 /-- base classes of `frozenlist` -/
 def frozenBases : List String := ["list"]
 
-/-- methods defined by `frozenlist`: (name, body is exactly `raise GuppyComptimeError(...)`) -/
+/-- methods overridden by `frozenlist`: (name, calling it on a real instance raises GuppyComptimeError and leaves it unchanged) -/
 def frozenOverrides : List (String × Bool) := [
   ("__delitem__", true),
   ("__iadd__", true),
